@@ -263,10 +263,12 @@ fn make_case(r: &mut rand::rngs::StdRng, k: usize) -> Case {
             scene.rich[tiny] = fine_tiny;
             scene.rich[big] = !fine_tiny;
         }
-        if contained && k % 8 == 1 {
-            // tight local bounding box: the big body aligned with its own frame, the tiny one hovering inside the shell
+        if contained && (k / 4) % 4 != 0 {
+            // tight local bounding box: the big body aligned with its own frame (robot part or environment object), the
+            // tiny one hovering inside the shell: above a face; off a corner, inside the shell along every axis but further
+            // away than the safety distance; above a plate without thickness
             let (big, tiny) = if scene.boxes[ia].h[0] > 0.1 { (a, b) } else { (b, a) };
-            if big < ENV0 { scene.aligned_pair = Some((big, tiny, rm * 0.3)); }
+            scene.aligned_pair = Some(match (k / 4) % 4 { 1 => (big, tiny, rm * 0.3, 0), 2 => (big, tiny, rm * 0.8, 1), _ => (big, tiny, rm * 0.3, 2) });
         }
         let gap = if !directed.is_empty() { -0.004 } else if contained { rm * 0.45 } else { match r.gen_range(0..5) {
             0 => -0.004,                 // overlapping
@@ -311,7 +313,8 @@ pub fn record_geometry(output: &str) {
         let asked: &dyn Kinematics = tooled.as_ref();
         let case = make_case(&mut r, k);
         // (one case in four stands at the very joint vector of the preceding case: another body, the same joints)
-        let q0: Joints = if k % 4 == 3 { last_q0 } else { std::array::from_fn(|_| r.gen_range(-1.0..1.0)) };
+        // (one case in three anywhere within two turns: link orientations beyond half a turn from the zero position)
+        let q0: Joints = if k % 4 == 3 { last_q0 } else if k % 3 == 1 { std::array::from_fn(|_| r.gen_range(-6.28..6.28)) } else { std::array::from_fn(|_| r.gen_range(-1.0..1.0)) };
         last_q0 = q0;
         let tj = table_json(&case.table);
         let has_tool = case.scene.ids.contains(&TOOL);
@@ -500,6 +503,22 @@ pub fn record_offsets(output: &str) {
         let through_shape = tries % 2 == 0;
         // precondition of the property: the initial vector is collision free (full check, brute force as well)
         if body.collides(&initial, kin) { continue; }
+        // one case in four is a fine step: the colliding candidate is moved towards the free initial vector by bisection
+        // of the moved joint, and the initial vector after it, until they are 2e-4 rad (every second time: a few ulps)
+        // apart - free on this side, colliding (full check) on that side, whatever the step size
+        let mut initial = initial;
+        if tries % 4 == 1 && body.collides(&cand, kin) {
+            let (mut lo, mut hi) = (initial[j], cand[j]);
+            for _ in 0..(if (tries / 4) % 2 == 0 { 12 } else { 60 }) {
+                let mid = 0.5 * (lo + hi);
+                if mid == lo || mid == hi { break; }
+                let mut v = initial;
+                v[j] = mid;
+                if body.collides(&v, kin) { hi = mid; } else { lo = mid; }
+            }
+            initial[j] = lo;
+            if side_to { to[j] = hi; } else { from[j] = hi; }
+        }
         made += 1;
         let class = format!("{}:{}{}", category(&(a.min(b) as u64, a.max(b) as u64)), if moved(a) != moved(b) { "moved-vs-unmoved" } else if moved(a) { "both-moved" } else { "both-unmoved" }, if coupled { ":coupled" } else { "" });
         for &pool in &pools_for(made, if thorough() { 5 } else { 3 }) {
